@@ -37,13 +37,20 @@ pub fn run(cx: &mut Ctx) {
     for _ in 0..60 * crate::scale() { let n = 1 + r.below(3) as usize; let mut c = Circuit::new(n); for _ in 0..1 + r.below(7) { c.push(random_gate(&mut r, n)); } circuits.push(c); }
     for (name, simplify, postselect) in [("plain", false, false), ("simplify_while_building", true, false), ("postselected_ccz", false, true)] {
         cx.check(&format!("to_graph_{}", name), |cb| {
-            for c in &circuits {
+            for (ci, c) in circuits.iter().enumerate() {
                 let res = (|| {
                     let n = c.num_qubits();
                     let u = unitary(c, n)?;
                     let g: Graph = guard(|| c.to_graph_with_options(simplify, postselect))?;
                     if g.inputs().len() != n || g.outputs().len() != n { return Err(format!("{} inputs and {} outputs for {} qubits", g.inputs().len(), g.outputs().len(), n)); }
                     let t = guard(|| g.to_tensorf())?;
+                    // the hash backend must give the same map (the translation is generic over the backend); its tensor evaluation is slow,
+                    // so only every eighth circuit is compared in the quick tier
+                    if ci % 8 == 0 {
+                        let gh: quizx::hash_graph::Graph = guard(|| c.to_graph_with_options(simplify, postselect))?;
+                        let th = guard(|| gh.to_tensorf())?;
+                        if th.shape() != t.shape() || th.iter().zip(t.iter()).any(|(a, b)| (a - b).norm() > 1e-9) { return Err("the hash backend and the vector backend give different tensors".into()); }
+                    }
                     for i in 0..1usize << n { for o in 0..1usize << n {
                         let mut ix: Vec<usize> = (0..n).map(|q| i >> q & 1).collect(); ix.extend((0..n).map(|q| o >> q & 1));
                         let got: C = t[&ix[..]];
